@@ -362,6 +362,8 @@ pub fn real_classify(tokens: &[String]) -> Result<Vec<RArg>, String> {
     }
 }
 
+pub const C08_ASCII: [&str; 7] = ["-", "a", "1", "=", "0", "Z", "."];
+pub const C08_PRINTABLE: [&str; 95] = [" ", "!", "\"", "#", "$", "%", "&", "'", "(", ")", "*", "+", ",", "-", ".", "/", "0", "1", "2", "3", "4", "5", "6", "7", "8", "9", ":", ";", "<", "=", ">", "?", "@", "A", "B", "C", "D", "E", "F", "G", "H", "I", "J", "K", "L", "M", "N", "O", "P", "Q", "R", "S", "T", "U", "V", "W", "X", "Y", "Z", "[", "\\", "]", "^", "_", "`", "a", "b", "c", "d", "e", "f", "g", "h", "i", "j", "k", "l", "m", "n", "o", "p", "q", "r", "s", "t", "u", "v", "w", "x", "y", "z", "{", "|", "}", "~"];
 pub const C08_BOUNDARY: [&str; 10] = ["-", "a", "\u{7f}", "\u{80}", "\u{7ff}", "\u{800}", "\u{7fff}", "\u{8000}", "\u{ffff}", "\u{10ffff}"];
 
 pub fn c08_lists(sigma: &[&str], max_items: u32, max_sym: u32) -> EnumOutcome {
